@@ -126,10 +126,9 @@ def bundle_decisions_by_index(base_path, decisions):
             'decision has incorrect base path: %r vs %r' % (d.common_path, base_path))
         if len(d.common_path) > level:
             # At least patch/patch will have common_path on a particular item
+            # The decision itself is left at its own path: actions such as
+            # clear, remove or take_max refer to the value at that path
             key = d.common_path[level]
-            # Wrap decision diffs in patches so common_path points to list
-            prefix = d.common_path[level:]
-            d = push_patch_decision(d, prefix)
         else:
             # Removerange or addrange will have common_path
             # on list and key only in the diff entries
